@@ -1,7 +1,7 @@
 (* C20 — the legacy API (core/deprecated.py) computes the same answers as the
    current one.  lwc_*/lwob_* are regenerated from the legacy SequenceConstraint
    on every run (gen/LegacyIupac.v). *)
-From Coq Require Import List NArith.
+From Coq Require Import List NArith ZArith.
 From DSD Require Import Base.Str Base.Errors Model.ComplexUtils Model.Rotation Model.Compare Model.Canon Model.Iupac
   Model.Legacy Proofs.RotOrbit Proofs.RotGen Proofs.C02 Proofs.C20.
 Import ListNotations.
@@ -37,3 +37,16 @@ Theorem C20_legacy_rotations_denote_the_presented_representation : forall x, goo
               Nat.iter r rotT c = x /\ r < nstr (snd x).
 Proof. exact legacy_rotations_vs_turns. Qed.
 Print Assumptions C20_legacy_rotations_denote_the_presented_representation.
+
+(* the distance reported with a duplicate: A registered (canonical form ca, `rotations` ra), a request B found to be its
+   duplicate at variant e.  DSDDuplicationError.rotations = (size - e) - ra; wrapped into 0..size-1 (as the legacy
+   rotate_pairtable_loc wraps it) it is the number of turns that leads from A's representation to B's, and
+   `existing` is the registered object (index 0 of the memory) *)
+Theorem C20_legacy_duplicate_distance : forall A B ca ra i e, goodNE A -> goodNE B ->
+  legacy_canonical (fst A) (snd A) [] = LOk ca ra ->
+  legacy_canonical (fst B) (snd B) [ca] = LDup i e ->
+  let n := nstr (snd B) in
+  i = 0 /\ 1 <= e <= n /\ nstr (snd A) = n /\
+  B = Nat.iter (Z.to_nat (wrap (Z.of_nat (n - e) - Z.of_nat ra) (Z.of_nat n))) rotT A.
+Proof. exact legacy_dup_rotations. Qed.
+Print Assumptions C20_legacy_duplicate_distance.
